@@ -146,6 +146,30 @@ def category(ctx, f):
         return "raise:" + f.exc
     if f.kind == "division":
         d = f.cond
+
+        def is_count(e, fn_, defs_, depth=0):
+            """len(x), or a local / a parameter of a private helper that only ever receives such"""
+            if isinstance(e, ast.Call) and isinstance(e.func, ast.Name) and e.func.id == "len":
+                return True
+            if isinstance(e, ast.Name) and depth < 3:
+                vals = [v for v in defs_.get(e.id, []) if not isinstance(v, tuple)]
+                if vals and len(vals) == len(defs_.get(e.id, [])):
+                    return all(is_count(v, fn_, defs_, depth + 1) for v in vals)
+                if e.id in fn_.params and not vals and fn_.name.startswith("_") and not fn_.name.endswith("__"):
+                    idx = fn_.params.index(e.id)
+                    sites = []
+                    for q2, g in ctx.model.funcs.items():
+                        inf2 = ctx.typer.of(g)
+                        for c in ast.walk(g.node):
+                            if isinstance(c, ast.Call) and any(t.qname == fn_.qname for t in inf2.targets(c, ("call",))):
+                                off = 1 if (fn_.kind in ("method", "getter", "setter", "class") and isinstance(c.func, ast.Attribute)) else 0
+                                a = c.args[idx - off] if 0 <= idx - off < len(c.args) else next(
+                                    (k.value for k in c.keywords if k.arg == e.id), None)
+                                sites.append((g, a))
+                    return bool(sites) and all(a is not None and is_count(a, g, pat.local_defs(g), depth + 1) for g, a in sites)
+            return False
+        if is_count(d, fn, defs):
+            return "count-division"
         if isinstance(d, ast.Name):
             vals = [v for v in defs.get(d.id, []) if not isinstance(v, tuple)]
             if vals and all(isinstance(v, ast.Call) and isinstance(v.func, ast.Name) and v.func.id == "len" for v in vals):
@@ -349,9 +373,9 @@ def r07_5(ctx):
 
 def r07_6(ctx):
     out = Outcome("R07.6", "cyclic indexing `S[(..) % n]`: n is the length of S (or of a sequence shown to have the same "
-                           "length)", floor=4)
+                           "length)", floor=2)
     for q, fn in sorted(ctx.model.funcs.items()):
-        for (n, seq, m, ok, why) in modidx.analyse(fn):
+        for (n, seq, m, ok, why) in modidx.analyse(fn, ctx.typer.of(fn)):
             if ok:
                 out.ok(q, f"`{seq}[.. % {m}]`", where=fn.where(n))
             elif ok is None:
